@@ -475,6 +475,7 @@ class Ctx:
         self.index_terms = {}      # ndim -> list of index tuples to instantiate foralls at
         self.requirements = []     # (cond, message): things the real code needs not to crash
         self.mods = []
+        self.model_hints = []      # soft preferences used only when asking for replayable models
         self.n_fresh = 0
         self.max_decisions = stats.get("max_decisions", 4000)
         self.tags = {}
@@ -585,9 +586,15 @@ class Ctx:
 
     def forall_instances(self):
         out = []
-        for ndim, fn in self.foralls:
+        cache = self.__dict__.setdefault("_inst_cache", {})
+        for k, (ndim, fn) in enumerate(self.foralls):
             for idx in self.index_terms.get(ndim, []):
-                out.append(fn(idx))
+                key = (k, tuple(i.get_id() for i in idx))
+                t = cache.get(key)
+                if t is None:
+                    t = fn(idx)
+                    cache[key] = t
+                out.append(t)
         return out
 
     # queries
